@@ -38,7 +38,7 @@ def transition(cfg, hist, a, props, before_cache=None):
     return w, tr, bad
 
 
-def bfs(cfg, alpha, depth, props, res, prefix=(), on_violation=None, max_states=None):
+def bfs(cfg, alpha, depth, props, res, prefix=(), on_violation=None, max_states=None, on_state=None):
     """Breadth-first search from the state reached by prefix, to histories of length depth. Monitors run on every
     transition, also on those leading to already-seen states. res: mc.framework.Result."""
     prefix = list(prefix)
@@ -66,6 +66,8 @@ def bfs(cfg, alpha, depth, props, res, prefix=(), on_violation=None, max_states=
                     if tr.events or tr.raised or tr.new_loans:
                         res.nontrivial.add(h64((cfg_id(cfg), k)))
                     nxt.append(hist + [a])
+                    if on_state:
+                        on_state(hist + [a])
                     if max_states and len(seen) >= max_states:
                         res.caps["max_states"] = f"state cap {max_states} hit at depth {level + 1}"
                         return
@@ -215,3 +217,15 @@ def lasso(cfg, prefix, cycle, reps, props, res, on_violation=None):
         before = tr.after
     res.executions += 1
     res.states.add(h64((cfg_id(cfg), w.key())))
+
+
+def normalized(obs):
+    """Observation with order / loan ids replaced by their creation index (ids are random in the library)."""
+    omap = {o[0]: "order#%d" % i for i, o in enumerate(obs["orders"])}
+    lmap = {lo[0]: "loan#%d" % i for i, lo in enumerate(obs["loans"])}
+
+    def fix_order(o):
+        return (omap.get(o[0], o[0]),) + tuple(o[1:-1]) + (tuple(sorted(lmap.get(x, x) for x in o[-1])),)
+    return dict(bal=obs["bal"], orders=[fix_order(o) for o in obs["orders"]],
+                loans=[(lmap.get(lo[0], lo[0]),) + tuple(lo[1:]) for lo in obs["loans"]], results=obs["results"],
+                events=[(w, fix_order(o)) for w, o in obs["events"]], open=sorted(omap.get(x, x) for x in obs["open"]))
